@@ -11,8 +11,13 @@ package main
 // write to the store delayed through the verifPoint hook.
 
 import (
+	"bufio"
+	"bytes"
 	"context"
+	"encoding/json"
 	"fmt"
+	"io"
+	"strings"
 	"math/rand"
 	"os"
 	"path/filepath"
@@ -83,6 +88,7 @@ type c16env struct {
 	uidN    int64
 	closed  bool
 	specDir string
+	sess    *c16session // if set, operations are requests over the service's line protocol
 }
 
 func newC16Env(workdir string, tag string) (*c16env, error) {
@@ -105,6 +111,9 @@ func newC16Env(workdir string, tag string) (*c16env, error) {
 }
 
 func (e *c16env) close() {
+	if e.sess != nil {
+		e.sess.w.Close()
+	}
 	if e.closed {
 		e.s.store.Open(e.ctx)
 		e.closed = false
@@ -164,7 +173,120 @@ func (e *c16env) stored() (map[string]string, error) {
 	return out, nil
 }
 
+// c16session is one client connection to the service's line protocol (Service.Listener,
+// what the TCP and WebSocket services run per connection): requests are JSON lines.
+type c16session struct {
+	w     *io.PipeWriter
+	lines chan string
+	last  string
+}
+
+type c16lineWriter struct {
+	buf   []byte
+	lines chan string
+}
+
+func (w *c16lineWriter) Write(p []byte) (int, error) {
+	w.buf = append(w.buf, p...)
+	for {
+		i := bytes.IndexByte(w.buf, '\n')
+		if i < 0 {
+			return len(p), nil
+		}
+		w.lines <- string(w.buf[:i])
+		w.buf = w.buf[i+1:]
+	}
+}
+
+func (e *c16env) openSession() {
+	pr, pw := io.Pipe()
+	lw := &c16lineWriter{lines: make(chan string, 64)}
+	e.sess = &c16session{w: pw, lines: lw.lines}
+	go func() {
+		e.s.Listener(e.ctx, bufio.NewReader(pr), lw, make(chan bool, 1))
+		close(lw.lines)
+	}()
+}
+
+// request sends one line and waits for the one-line answer.
+func (c *c16session) request(line string) (map[string]interface{}, error) {
+	c.last = line
+	if _, err := c.w.Write([]byte(line + "\n")); err != nil {
+		return nil, err
+	}
+	select {
+	case l, ok := <-c.lines:
+		if !ok {
+			return nil, fmt.Errorf("connection closed by the service")
+		}
+		var m map[string]interface{}
+		if err := json.Unmarshal([]byte(l), &m); err != nil {
+			return nil, fmt.Errorf("unreadable answer %q", l)
+		}
+		if es, ok := m["error"].(string); ok {
+			return m, fmt.Errorf("%s", es)
+		}
+		if es, ok := m["err"].(string); ok && es != "" {
+			return m, fmt.Errorf("%s", es)
+		}
+		if cop, ok := m["cop"].(map[string]interface{}); ok {
+			for _, v := range cop {
+				if vm, ok := v.(map[string]interface{}); ok {
+					if es, ok := vm["err"].(string); ok && es != "" {
+						return m, fmt.Errorf("%s", es)
+					}
+				}
+			}
+		}
+		return m, nil
+	case <-time.After(60 * time.Second):
+		return nil, fmt.Errorf("no answer within 60 s")
+	}
+}
+
+func (e *c16env) applyViaListener(o c16op) (result string, err error) {
+	js := func(x interface{}) string { b, _ := json.Marshal(x); return string(b) }
+	var line string
+	switch o.Kind {
+	case "again":
+		if e.sess.last == "" || strings.Contains(e.sess.last, "getCrew") {
+			return "again: nothing to repeat", nil
+		}
+		line = e.sess.last
+	case "add":
+		inc := atomic.AddInt64(&e.incN, 1)
+		line = js(map[string]interface{}{"cop": map[string]interface{}{"add": map[string]interface{}{"m": map[string]interface{}{
+			"id": o.Id, "spec": map[string]interface{}{"name": "counter"},
+			"state": map[string]interface{}{"node": "start", "bs": map[string]interface{}{"inc": float64(inc), "n": 0.0, "self": o.Id}}}}}})
+	case "rem":
+		line = js(map[string]interface{}{"cop": map[string]interface{}{"rem": map[string]interface{}{"id": o.Id}}})
+	case "to", "all", "poison":
+		uid := fmt.Sprintf("u%d", atomic.AddInt64(&e.uidN, 1))
+		msg := map[string]interface{}{"uid": uid}
+		switch o.Kind {
+		case "to":
+			msg["to"] = o.Id
+		case "poison":
+			msg["d"] = 0.0
+			msg["only"] = o.Id
+		}
+		line = js(map[string]interface{}{"cop": map[string]interface{}{"process": map[string]interface{}{"message": msg}}})
+	case "get":
+		line = js(map[string]interface{}{"getCrew": map[string]interface{}{}})
+	default:
+		return "", fmt.Errorf("unknown op")
+	}
+	m, err := e.sess.request(line)
+	if err != nil {
+		return o.Kind + ": " + err.Error(), err
+	}
+	return o.Kind + " answered " + fw.Short(m), nil
+}
+
 func (e *c16env) apply(o c16op) (result string, err error) {
+	if e.sess != nil {
+		return e.applyViaListener(o)
+	}
 	switch o.Kind {
 	case "again":
 		// a client retries its previous request verbatim
@@ -307,7 +429,11 @@ func c16SequentialMid(cfg fw.Config, rec *fw.Rec, seqIdx int, seq []c16op, fi, f
 		return false
 	}
 	defer env.close()
-	replay := map[string]interface{}{"sequence": seq, "store_fails_from": fi, "store_fails_until": fj, "mid_operation": midK, "mid_write_call": midC}
+	viaListener := seqIdx%2 == 1
+	if viaListener {
+		env.openSession()
+	}
+	replay := map[string]interface{}{"sequence": seq, "store_fails_from": fi, "store_fails_until": fj, "mid_operation": midK, "mid_write_call": midC, "via_line_protocol": viaListener}
 	for k, o := range seq {
 		if k == fi && fi < fj {
 			env.failStore()
@@ -410,6 +536,9 @@ func c16SequentialMid(cfg fw.Config, rec *fw.Rec, seqIdx int, seq []c16op, fi, f
 				return false
 			}
 			rec.Bucket("healthy_op_memory_equals_store")
+			if viaListener {
+				rec.Bucket("requests_over_the_line_protocol")
+			}
 		}
 	}
 	return true
@@ -655,8 +784,8 @@ func c16Concurrent(cfg fw.Config, rec *fw.Rec, idx int, interleavings map[string
 
 func init() {
 	verifRegistry["C16/mcrew"] = func(cfg fw.Config, rec *fw.Rec) {
-		rec.Rule = "sequential: operation sequences of length 2-8 over {add, rem, process-to, process-all, read-crew, retry-the-previous-request-verbatim} on ids {m1,m2,m3}; for every 0 <= i < j <= n the bolt store is closed for operations i..j-1 (plus the fault-free run); after each operation with a healthy store memory must equal the store, an operation whose write failed must leave memory as it was, after recovery memory must equal the store; a 'poison' request to every machine leaves one machine with a state the store cannot serialise (100/0), so the request's write fails although the store is healthy: memory must stay as it was for every machine and equal the store; mid-operation faults: the hook counts an operation's store write calls and closes the database at the 1st/2nd/3rd call of that operation (the observed maximum of write calls per operation is reported); concurrent: 4-8 clients x 6-15 requests on 2-3 ids with every store write delayed 0-2 ms through the verifPoint hook: final memory == store, no two process results from one machine state, per-machine history linearizable (porcupine) w.r.t. a sequential service model; non-trivial = sequence run under a fault window / concurrent history; distinct by (sequence, window) / history"
-		rec.Required = []string{"healthy_op_memory_equals_store", "failed_write_left_memory_unchanged", "recovered_store_agrees", "concurrent_histories", "histories_linearizable_per_machine", "fault_windows", "unserialisable_state_left_memory_unchanged", "unserialisable_state_in_multi_machine_request", "mid_operation_fault_injected"}
+		rec.Rule = "sequential (every second sequence as JSON request lines through Service.Listener, the per-connection loop of the TCP / WebSocket services; the others as direct Service calls): operation sequences of length 2-8 over {add, rem, process-to, process-all, read-crew, retry-the-previous-request-verbatim} on ids {m1,m2,m3}; for every 0 <= i < j <= n the bolt store is closed for operations i..j-1 (plus the fault-free run); after each operation with a healthy store memory must equal the store, an operation whose write failed must leave memory as it was, after recovery memory must equal the store; a 'poison' request to every machine leaves one machine with a state the store cannot serialise (100/0), so the request's write fails although the store is healthy: memory must stay as it was for every machine and equal the store; mid-operation faults: the hook counts an operation's store write calls and closes the database at the 1st/2nd/3rd call of that operation (the observed maximum of write calls per operation is reported); concurrent: 4-8 clients x 6-15 requests on 2-3 ids with every store write delayed 0-2 ms through the verifPoint hook: final memory == store, no two process results from one machine state, per-machine history linearizable (porcupine) w.r.t. a sequential service model; non-trivial = sequence run under a fault window / concurrent history; distinct by (sequence, window) / history"
+		rec.Required = []string{"healthy_op_memory_equals_store", "failed_write_left_memory_unchanged", "recovered_store_agrees", "concurrent_histories", "histories_linearizable_per_machine", "fault_windows", "requests_over_the_line_protocol", "unserialisable_state_left_memory_unchanged", "unserialisable_state_in_multi_machine_request", "mid_operation_fault_injected"}
 		rec.Assume = []string{"store faults are injected by closing the bolt database (every write and read fails until it is reopened); commits do not fsync (NoSync) because durability is not monitored", "machines are counters with a unique incarnation tag, so every state of every incarnation is distinguishable", "porcupine timeout 60 s = inconclusive"}
 		// sequential fault enumeration
 		nseq := cfg.Pick(40, 800)
